@@ -178,24 +178,46 @@ theorem C03_nonrational_is_contraction (o : Obj K) (tol : K) (params : List (Lis
 
 /-! ## Rational objects -/
 
-/-- **Generic quotient-rule branch** (`SplineObject.derivative`, rational, every parametric dimension,
-`tensor` either way).  A successful call has total order ≤ 1, and wherever the homogeneous jets
-`N = Σ Π B · P` (order 0, from the right) and `D = Σ Π dB · P` (the requested order/sides) satisfy the
-Leibniz relations of `n = x·W` at a point, the returned entry is the jet component `x₁` of the quotient. -/
-theorem C03_rational_first (o : Obj K) (tol : K) (params : List (List K)) (derivs : List ℕ)
-    (above : List Bool) (tensor : Bool) (r : Tensor K) (hr : o.rational = true)
+/-- **Order zero** (`derivative(…, d=0)` / `d=(0,…,0)` on a rational object, every parametric dimension,
+`tensor` either way): the returned entry is the homogeneous coordinate divided by the weight, both taken
+from the requested sides — the point itself (`x₀` whenever `n = x₀·W`, `W ≠ 0`). -/
+theorem C03_rational_order_zero (o : Obj K) (tol : K) (params : List (List K)) (derivs : List ℕ)
+    (above : List Bool) (tensor : Bool) (r : Tensor K) (hr : o.rational = true) (h0 : derivs.sum = 0)
     (h : o.derivativeGeneric tol params derivs above tensor = .ok r) :
-    derivs.sum ≤ 1 ∧ ∃ ps, o.validateDomain tol params = .ok ps ∧
+    ∃ ps, o.validateDomain tol params = .ok ps ∧
+      ∀ pI c, c < o.dimension → pI < (o.homJet tol ps derivs above tensor).size / o.ncomp →
+        ∀ x0 : K,
+          let N := o.homJet tol ps derivs above tensor
+          N.get (pI * o.ncomp + o.dimension) ≠ 0 →
+          N.get (pI * o.ncomp + c) = x0 * N.get (pI * o.ncomp + o.dimension) →
+          r.get (pI * o.dimension + c) = x0 := by
+  obtain ⟨ps, hps, hget⟩ := Obj.derivativeGeneric_rational_zero_get o tol params derivs above tensor r hr h0 h
+  refine ⟨ps, hps, ?_⟩
+  intro pI c hc hpI x0 N hW hn
+  rw [hget pI c hc hpI]
+  show N.get (pI * o.ncomp + c) / N.get (pI * o.ncomp + o.dimension) = x0
+  rw [hn]
+  field_simp
+
+/-- **Generic quotient-rule branch** (`SplineObject.derivative`, rational, total order 1, every parametric
+dimension, `tensor` either way).  A successful call of non-zero order has total order exactly 1, and wherever
+the homogeneous jets `N = Σ Π B · P` (order 0) and `D = Σ Π dB · P` (the requested order) — BOTH from the
+requested sides — satisfy the Leibniz relations of `n = x·W` at a point, the returned entry is the jet
+component `x₁` of the quotient. -/
+theorem C03_rational_first (o : Obj K) (tol : K) (params : List (List K)) (derivs : List ℕ)
+    (above : List Bool) (tensor : Bool) (r : Tensor K) (hr : o.rational = true) (hne : derivs.sum ≠ 0)
+    (h : o.derivativeGeneric tol params derivs above tensor = .ok r) :
+    derivs.sum = 1 ∧ ∃ ps, o.validateDomain tol params = .ok ps ∧
       ∀ pI c, c < o.dimension → pI < (o.homJet tol ps derivs above tensor).size / o.ncomp →
         ∀ x0 x1 : K,
-          let N := o.homJet tol ps (derivs.map fun _ => 0) (above.map fun _ => true) tensor
+          let N := o.homJet tol ps (above.map fun _ => 0) above tensor
           let D := o.homJet tol ps derivs above tensor
           N.get (pI * o.ncomp + o.dimension) ≠ 0 →
           N.get (pI * o.ncomp + c) = x0 * N.get (pI * o.ncomp + o.dimension) →
           D.get (pI * o.ncomp + c) =
             x1 * N.get (pI * o.ncomp + o.dimension) + x0 * D.get (pI * o.ncomp + o.dimension) →
           r.get (pI * o.dimension + c) = x1 := by
-  obtain ⟨hsum, ps, hps, hget⟩ := Obj.derivativeGeneric_rational_get o tol params derivs above tensor r hr h
+  obtain ⟨hsum, ps, hps, hget⟩ := Obj.derivativeGeneric_rational_get o tol params derivs above tensor r hr hne h
   refine ⟨hsum, ps, hps, ?_⟩
   intro pI c hc hpI x0 x1 N D hW h0 h1
   rw [hget pI c hc hpI]
@@ -217,12 +239,12 @@ theorem C03_rational_refuses_runtime (o : Obj K) (tol : K) (params : List (List 
   Obj.derivativeGeneric_rational_runtime o tol params derivs above tensor hr hd ps hps ht
 
 /-- **`Curve.derivative`, rational, d = 2 and d = 3.**  With the homogeneous jets
-`J_k = basis.evaluate(t, k, side) @ controlpoints` (`J_0` from the right, as the code does): wherever they
-satisfy the Leibniz relations of `n = x·W` up to order `d`, the returned entry is `x_d`. -/
+`J_k = basis.evaluate(t, k, side) @ controlpoints`, ALL from the requested side (`J_0` included): wherever
+they satisfy the Leibniz relations of `n = x·W` up to order `d`, the returned entry is `x_d`. -/
 theorem C03_rational_curve_2_3 (o : Obj K) (tol : K) (ts : List K) (above : Bool) (pI c : ℕ)
     (hc : c < o.dimension) (hpI : pI < ts.length) (x0 x1 x2 x3 : K) :
-    let n (k : ℕ) := (o.curveJet tol ts k (if k = 0 then true else above)).get (pI * o.ncomp + c)
-    let W (k : ℕ) := (o.curveJet tol ts k (if k = 0 then true else above)).get (pI * o.ncomp + o.dimension)
+    let n (k : ℕ) := (o.curveJet tol ts k above).get (pI * o.ncomp + c)
+    let W (k : ℕ) := (o.curveJet tol ts k above).get (pI * o.ncomp + o.dimension)
     W 0 ≠ 0 → n 0 = x0 * W 0 → n 1 = x1 * W 0 + x0 * W 1 →
     n 2 = x2 * W 0 + 2 * x1 * W 1 + x0 * W 2 →
     ((o.curveDerivativeRational tol ts 2 above).get (pI * o.dimension + c) = x2) ∧
@@ -236,18 +258,18 @@ theorem C03_rational_curve_2_3 (o : Obj K) (tol : K) (ts : List K) (above : Bool
     rw [Obj.curveDerivativeRational_get_three o tol ts above pI c hc hpI]
     exact RatDeriv.curveD3_correct hW h0 h1 h2 h3
 
-/-- **`Surface.derivative`, rational, total order 2 and 3** (tensor grid, the branch table reached, i.e.
-`d` a tuple).  The call succeeds, and wherever the ten homogeneous jets of numerator component and weight
-satisfy the Leibniz relations of `n = x·W` (`SurfLeibniz`), the returned entry is the mixed partial
-`x_{du,dv}` of the quotient. -/
-theorem C03_rational_surface_2_3 (o : Obj K) (tol : K) (us vs : List K) (du dv : ℕ) (fr : Bool)
+/-- **`Surface.derivative`, rational, total order 2 and 3** (tensor grid; per-direction sides `frU`, `frV`).
+The call succeeds, and wherever the ten homogeneous jets of numerator component and weight satisfy the
+Leibniz relations of `n = x·W` (`SurfLeibniz`), the returned entry is the mixed partial `x_{du,dv}` of the
+quotient. -/
+theorem C03_rational_surface_2_3 (o : Obj K) (tol : K) (us vs : List K) (du dv : ℕ) (frU frV : Bool)
     (h2 : 2 ≤ du + dv) (h3 : du + dv ≤ 3) :
-    ∃ r, o.surfaceDerivativeRational tol us vs du dv fr true true = .ok r ∧
+    ∃ r, o.surfaceDerivativeRational tol us vs du dv frU frV true = .ok r ∧
       ∀ pI c, c < o.dimension → pI < us.length * vs.length → ∀ x : RatDeriv.SurfJet K,
-        (o.surfJetAt tol us vs fr pI o.dimension).f00 ≠ 0 →
-        RatDeriv.SurfLeibniz (o.surfJetAt tol us vs fr pI c) x (o.surfJetAt tol us vs fr pI o.dimension) →
+        (o.surfJetAt tol us vs frU frV pI o.dimension).f00 ≠ 0 →
+        RatDeriv.SurfLeibniz (o.surfJetAt tol us vs frU frV pI c) x (o.surfJetAt tol us vs frU frV pI o.dimension) →
         r.get (pI * o.dimension + c) = x.get du dv := by
-  obtain ⟨r, hr, hget⟩ := Obj.surfaceDerivativeRational_get o tol us vs du dv fr h2 h3
+  obtain ⟨r, hr, hget⟩ := Obj.surfaceDerivativeRational_get o tol us vs du dv frU frV h2 h3
   refine ⟨r, hr, ?_⟩
   intro pI c hc hpI x hW hL
   exact RatDeriv.surfD_correct hW hL du dv _ (hget pI c hc hpI)
@@ -257,14 +279,17 @@ theorem C03_rational_surface_2_3 (o : Obj K) (tol : K) (us vs : List K) (du dv :
 /-- **Dispatch, curves.**  Let `f` be a dispatch function (in the check: the table translated from the
 current source of `Curve.derivative`) that is sound at the call (`f rational d = expected rational idx`,
 discharged for the generated table by `Generated.C03Obligations` through `soundOn_spec`).  Then the call
-computes the proved closed form of its multi-index when the object is rational of order 2–3, and the
-generic method on that multi-index otherwise (which refuses rational orders > 1, `C03_rational_refuses`). -/
+computes the proved closed form of its multi-index — from the side `above` (or `above[0]` for a sequence;
+IndexError for an empty one) — when the object is rational of order 2–3, and the generic method on that
+multi-index otherwise (which refuses rational orders > 1, `C03_rational_refuses`). -/
 theorem C03_dispatch_curve (f : Bool → DSpec → Outcome) (o : Obj K) (tol : K) (ts : List K) (d : DSpec)
     (idx : List ℕ) (above : ASpec) (tensor : Bool) (hm : meaning 1 d = some idx)
     (hf : f o.rational d = expected o.rational idx) :
     o.curveDerivativeWith f tol ts d above tensor =
       if o.rational = true ∧ 2 ≤ idx.sum ∧ idx.sum ≤ 3 then
-        .ok (o.curveDerivativeRational tol ts (idx.getD 0 0) above.truthy)
+        (match above.selfOrHead with
+         | none => .error .index
+         | some a => .ok (o.curveDerivativeRational tol ts (idx.getD 0 0) a))
       else o.derivativeGeneric tol [ts] idx (above.norm 1) tensor := by
   have hlen : ∃ n, idx = [n] := by
     cases d with
@@ -294,7 +319,8 @@ theorem C03_dispatch_curve (f : Bool → DSpec → Outcome) (o : Obj K) (tol : K
   by_cases hc : o.rational = true ∧ 2 ≤ n ∧ n ≤ 3
   · rw [if_pos hc]
     obtain ⟨h1, h2, h3⟩ := hc
-    simp [h1, h2, h3]
+    simp only [h1, h2, h3, decide_true, Bool.and_self, if_true, List.getD_cons_zero]
+    cases above.selfOrHead <;> rfl
   · rw [if_neg hc]
     have : (o.rational && decide (2 ≤ n) && decide (n ≤ 3)) = false := by
       rw [Bool.eq_false_iff]
@@ -304,15 +330,18 @@ theorem C03_dispatch_curve (f : Bool → DSpec → Outcome) (o : Obj K) (tol : K
     rw [this]
     simp
 
-/-- **Dispatch, surfaces** (same reading as `C03_dispatch_curve`; the extra `ValueError` is `einsum`
-rejecting `tensor=False` with different numbers of `u` and `v`). -/
+/-- **Dispatch, surfaces** (same reading as `C03_dispatch_curve`; sides `above[0]`, `above[1]` of the
+normalised `above`; the `ValueError` is `einsum` rejecting `tensor=False` with different numbers of `u` and `v`). -/
 theorem C03_dispatch_surface (f : Bool → DSpec → Outcome) (o : Obj K) (tol : K) (us vs : List K)
     (d : DSpec) (idx : List ℕ) (above : ASpec) (tensor : Bool) (hm : meaning 2 d = some idx)
     (hf : f o.rational d = expected o.rational idx) :
     o.surfaceDerivativeWith f tol us vs d above tensor =
       if o.rational = true ∧ 2 ≤ idx.sum ∧ idx.sum ≤ 3 then
-        (if !tensor ∧ us.length ≠ vs.length then .error .value
-         else o.surfaceDerivativeRational tol us vs (idx.getD 0 0) (idx.getD 1 0) above.truthy tensor true)
+        (match above.norm 2 with
+         | fu :: fv :: _ =>
+           if !tensor ∧ us.length ≠ vs.length then .error .value
+           else o.surfaceDerivativeRational tol us vs (idx.getD 0 0) (idx.getD 1 0) fu fv tensor
+         | _ => .error .index)
       else o.derivativeGeneric tol [us, vs] idx (above.norm 2) tensor := by
   have hlen : ∃ a b, idx = [a, b] := by
     cases d with
@@ -335,6 +364,7 @@ theorem C03_dispatch_surface (f : Bool → DSpec → Outcome) (o : Obj K) (tol :
       · exact absurd hm (by simp)
   obtain ⟨a, b, rfl⟩ := hlen
   unfold Obj.surfaceDerivativeWith
+  simp only [ASpec.norm_idem]
   rw [hf]
   unfold expected
   have hsum : [a, b].sum = a + b := by simp
@@ -342,7 +372,8 @@ theorem C03_dispatch_surface (f : Bool → DSpec → Outcome) (o : Obj K) (tol :
   by_cases hc : o.rational = true ∧ 2 ≤ a + b ∧ a + b ≤ 3
   · rw [if_pos hc]
     obtain ⟨h1, h2, h3⟩ := hc
-    simp [h1, h2, h3]
+    simp only [h1, h2, h3, decide_true, Bool.and_self, if_true]
+    rcases above.norm 2 with _ | ⟨fu, _ | ⟨fv, tl⟩⟩ <;> rfl
   · rw [if_neg hc]
     have : (o.rational && decide (2 ≤ a + b) && decide (a + b ≤ 3)) = false := by
       rw [Bool.eq_false_iff]
@@ -376,21 +407,25 @@ obligations `C03_dispatch_{curve,surface}_sound_{int,tuple,list}` (decided by ev
 with entries ≤ 5 resp. ≤ 4).  Conclusion: for every such spelling of every multi-index the call computes the
 closed form PROVED for that multi-index (`C03_rational_curve_2_3`, `C03_rational_surface_2_3`) when the object
 is rational of total order 2–3, and otherwise the generic method on that multi-index (`C03_nonrational_*`,
-`C03_rational_first`; rational total order > 1 raises, `C03_rational_refuses`).
-On the pinned tree the list/int obligations for surfaces are false (`d=[2,0]` returns zeros). -/
+`C03_rational_order_zero`, `C03_rational_first`; rational total order > 1 raises, `C03_rational_refuses`). -/
 theorem C03_dispatch (fc fs : Bool → DSpec → Outcome) (dsc dss : List DSpec)
     (hc : soundOn fc 1 dsc = true) (hs : soundOn fs 2 dss = true)
     (o : Obj K) (tol : K) (us vs : List K) (d : DSpec) (idx : List ℕ) (above : ASpec) (tensor : Bool) :
     (d ∈ dsc → meaning 1 d = some idx →
       o.curveDerivativeWith fc tol us d above tensor =
         if o.rational = true ∧ 2 ≤ idx.sum ∧ idx.sum ≤ 3 then
-          .ok (o.curveDerivativeRational tol us (idx.getD 0 0) above.truthy)
+          (match above.selfOrHead with
+           | none => .error .index
+           | some a => .ok (o.curveDerivativeRational tol us (idx.getD 0 0) a))
         else o.derivativeGeneric tol [us] idx (above.norm 1) tensor) ∧
     (d ∈ dss → meaning 2 d = some idx →
       o.surfaceDerivativeWith fs tol us vs d above tensor =
         if o.rational = true ∧ 2 ≤ idx.sum ∧ idx.sum ≤ 3 then
-          (if !tensor ∧ us.length ≠ vs.length then .error .value
-           else o.surfaceDerivativeRational tol us vs (idx.getD 0 0) (idx.getD 1 0) above.truthy tensor true)
+          (match above.norm 2 with
+           | fu :: fv :: _ =>
+             if !tensor ∧ us.length ≠ vs.length then .error .value
+             else o.surfaceDerivativeRational tol us vs (idx.getD 0 0) (idx.getD 1 0) fu fv tensor
+           | _ => .error .index)
         else o.derivativeGeneric tol [us, vs] idx (above.norm 2) tensor) := by
   constructor
   · intro hd hm
@@ -398,7 +433,7 @@ theorem C03_dispatch (fc fs : Bool → DSpec → Outcome) (dsc dss : List DSpec)
   · intro hd hm
     exact C03_dispatch_surface fs o tol us vs d idx above tensor hm (soundOn_spec hs hd hm o.rational)
 
-/-- **The pinned dispatch of `Curve.derivative` is sound for every spelling** (int, one-element tuple or list). -/
+/-- **The dispatch of `Curve.derivative` is sound for every spelling** (int, one-element tuple or list). -/
 theorem C03_dispatch_pinned_curve (r : Bool) (d : DSpec) (idx : List ℕ) (hm : meaning 1 d = some idx) :
     curveOutcome r d = expected r idx := by
   have key : ∀ n : ℕ, (if (!r || decide (n < 2) || decide (n > 3)) = true then Outcome.generic [n]
@@ -428,31 +463,59 @@ theorem C03_dispatch_pinned_curve (r : Bool) (d : DSpec) (idx : List ℕ) (hm : 
       | [n], _ => simpa [curveOutcome, DSpec.isSingleton, DSpec.head?, DSpec.items, DSpec.ensureListlike] using key n
     · exact absurd hm (by simp)
 
-/-- **The pinned dispatch of `Surface.derivative` is sound for `d` given as a tuple.**
-PARTIAL: it is NOT sound for `d` given as a list or an int — see the two `example`s below; the
-source-derived obligations `C03_dispatch_surface_sound_list/int` fail accordingly. -/
-theorem C03_dispatch_pinned_surface_tuple_partial (r : Bool) (a b : ℕ) :
+/-- The dispatch of `Surface.derivative` on a two-element tuple. -/
+theorem C03_dispatch_pinned_surface_tuple (r : Bool) (a b : ℕ) :
     surfaceOutcome r (.tup [a, b]) = expected r [a, b] := by
   cases r
-  · simp [surfaceOutcome, expected, DSpec.ensureListlike, DSpec.items]
+  · simp [surfaceOutcome, expected, DSpec.ensureListlike, DSpec.items, DSpec.toTuple]
   · by_cases h : 2 ≤ a + b ∧ a + b ≤ 3
     · obtain ⟨h2, h3⟩ := h
       have ha : a ≤ 3 := by omega
       have hb : b ≤ 3 := by omega
       interval_cases a <;> interval_cases b <;> first | omega | decide
-    · have hg : (decide (a + b < 2) || decide (a + b > 3)) = true := by
-        rw [Bool.or_eq_true, decide_eq_true_eq, decide_eq_true_eq]; omega
-      have he : (decide (2 ≤ a + b) && decide (a + b ≤ 3)) = false := by
+    · have he : (decide (2 ≤ a + b) && decide (a + b ≤ 3)) = false := by
         rw [Bool.eq_false_iff]
         intro hh
         rw [Bool.and_eq_true, decide_eq_true_eq, decide_eq_true_eq] at hh
         exact h hh
-      simp [surfaceOutcome, expected, DSpec.ensureListlike, DSpec.items, he]
+      simp [surfaceOutcome, expected, DSpec.ensureListlike, DSpec.items, DSpec.toTuple, he]
       intro h1 h2
       exact absurd ⟨by omega, h2⟩ h
 
-example : surfaceOutcome true (.lst [2, 0]) = .zeros ∧ expected true [2, 0] = .closed [2, 0] := by decide
-example : surfaceOutcome true (.int 1) = .zeros ∧ expected true [1, 1] = .closed [1, 1] := by decide
+/-- **The dispatch of `Surface.derivative` is sound for every spelling** of `d` — int (replicated), tuple,
+list — since `derivs = tuple(ensure_listlike(d, pardim))` (commit cd5762c). -/
+theorem C03_dispatch_pinned_surface (r : Bool) (d : DSpec) (idx : List ℕ) (hm : meaning 2 d = some idx) :
+    surfaceOutcome r d = expected r idx := by
+  cases d with
+  | int n =>
+    have : idx = [n, n] := by simpa [meaning, List.replicate] using hm.symm
+    subst this
+    have e : surfaceOutcome r (.int n) = surfaceOutcome r (.tup [n, n]) := rfl
+    rw [e]; exact C03_dispatch_pinned_surface_tuple r n n
+  | tup l =>
+    simp only [meaning] at hm
+    split at hm
+    · rename_i hl
+      injection hm with hm; subst hm
+      match l, hl with
+      | [a, b], _ => exact C03_dispatch_pinned_surface_tuple r a b
+    · exact absurd hm (by simp)
+  | lst l =>
+    simp only [meaning] at hm
+    split at hm
+    · rename_i hl
+      injection hm with hm; subst hm
+      match l, hl with
+      | [a, b], _ =>
+        have e : surfaceOutcome r (.lst [a, b]) = surfaceOutcome r (.tup [a, b]) := rfl
+        rw [e]; exact C03_dispatch_pinned_surface_tuple r a b
+    · exact absurd hm (by simp)
+
+/-- The shape of the repaired defect (before cd5762c `derivs` stayed a list, and a list never equals a tuple
+literal): the un-fixed dispatch sends `d=[2,0]` and `d=1` of a rational surface to the zero-initialised array. -/
+example : surfaceOutcomeUnfixed true (.lst [2, 0]) = .zeros ∧ expected true [2, 0] = .closed [2, 0] := by decide
+example : surfaceOutcomeUnfixed true (.int 1) = .zeros ∧ expected true [1, 1] = .closed [1, 1] := by decide
+example : surfaceOutcome true (.lst [2, 0]) = .closed [2, 0] ∧ surfaceOutcome true (.int 1) = .closed [1, 1] := by decide
 
 /-- What the executable model (`Obj.derivativeCall`, run by the correspondence check) computes for a curve,
 for EVERY documented spelling of `d`: the proved closed form for rational order 2–3, else the generic method. -/
@@ -460,21 +523,32 @@ theorem C03_derivativeCall_curve (o : Obj K) (tol : K) (ts : List K) (d : DSpec)
     (above : ASpec) (tensor : Bool) (hm : meaning 1 d = some idx) :
     o.derivativeCall tol [ts] d above tensor =
       if o.rational = true ∧ 2 ≤ idx.sum ∧ idx.sum ≤ 3 then
-        .ok (o.curveDerivativeRational tol ts (idx.getD 0 0) above.truthy)
+        (match above.selfOrHead with
+         | none => .error .index
+         | some a => .ok (o.curveDerivativeRational tol ts (idx.getD 0 0) a))
       else o.derivativeGeneric tol [ts] idx (above.norm 1) tensor :=
   C03_dispatch_curve curveOutcome o tol ts d idx above tensor hm (C03_dispatch_pinned_curve o.rational d idx hm)
 
-/-- Same for a surface, PARTIAL: only for `d` given as a tuple (for a list / int the pinned code returns
-zeros for rational total order 2–3, see the `example`s above). -/
-theorem C03_derivativeCall_surface_tuple_partial (o : Obj K) (tol : K) (us vs : List K) (a b : ℕ)
-    (above : ASpec) (tensor : Bool) :
-    o.derivativeCall tol [us, vs] (.tup [a, b]) above tensor =
-      if o.rational = true ∧ 2 ≤ [a, b].sum ∧ [a, b].sum ≤ 3 then
-        (if !tensor ∧ us.length ≠ vs.length then .error .value
-         else o.surfaceDerivativeRational tol us vs a b above.truthy tensor true)
-      else o.derivativeGeneric tol [us, vs] [a, b] (above.norm 2) tensor :=
-  C03_dispatch_surface surfaceOutcome o tol us vs (.tup [a, b]) [a, b] above tensor (by simp [meaning])
-    (C03_dispatch_pinned_surface_tuple_partial o.rational a b)
+/-- Same for a surface, for EVERY documented spelling of `d` (int, tuple, list). -/
+theorem C03_derivativeCall_surface (o : Obj K) (tol : K) (us vs : List K) (d : DSpec) (idx : List ℕ)
+    (above : ASpec) (tensor : Bool) (hm : meaning 2 d = some idx) :
+    o.derivativeCall tol [us, vs] d above tensor =
+      if o.rational = true ∧ 2 ≤ idx.sum ∧ idx.sum ≤ 3 then
+        (match above.norm 2 with
+         | fu :: fv :: _ =>
+           if !tensor ∧ us.length ≠ vs.length then .error .value
+           else o.surfaceDerivativeRational tol us vs (idx.getD 0 0) (idx.getD 1 0) fu fv tensor
+         | _ => .error .index)
+      else o.derivativeGeneric tol [us, vs] idx (above.norm 2) tensor :=
+  C03_dispatch_surface surfaceOutcome o tol us vs d idx above tensor hm
+    (C03_dispatch_pinned_surface o.rational d idx hm)
+
+/-- Per-direction sides: with `above` a bool `b` the closed forms use `(b, b)`, with a pair `[a₁, a₂]` they use
+`(a₁, a₂)` — the property's "one-sided limit selected by `above`" per direction. -/
+theorem C03_above_sides (b a1 a2 : Bool) :
+    (ASpec.bool b).norm 2 = [b, b] ∧ (ASpec.seq [a1, a2]).norm 2 = [a1, a2] ∧
+    (ASpec.bool b).selfOrHead = some b ∧ (ASpec.seq [a1]).selfOrHead = some a1 := by
+  refine ⟨rfl, rfl, rfl, rfl⟩
 
 /-! ## Derivative spline -/
 
@@ -553,27 +627,27 @@ per-direction sides — for rational objects too (total order 1: first-order quo
 `C03_rational_first`). -/
 theorem C03_tangent_is_first_derivative (o : Obj K) (tol : K) (us vs : List K) (above : ASpec) (tensor : Bool) :
     (o.pardim = 1 → o.tangentRaw tol [us] 0 above tensor =
-        o.derivativeGeneric tol [us] [1] ((ASpec.seq (above.norm 1)).norm 1) tensor) ∧
+        o.derivativeGeneric tol [us] [1] (above.norm 1) tensor) ∧
     (o.pardim = 2 → o.tangentRaw tol [us, vs] 0 above tensor =
-        o.derivativeGeneric tol [us, vs] [1, 0] ((ASpec.seq (above.norm 2)).norm 2) tensor) ∧
+        o.derivativeGeneric tol [us, vs] [1, 0] (above.norm 2) tensor) ∧
     (o.pardim = 2 → o.tangentRaw tol [us, vs] 1 above tensor =
-        o.derivativeGeneric tol [us, vs] [0, 1] ((ASpec.seq (above.norm 2)).norm 2) tensor) := by
+        o.derivativeGeneric tol [us, vs] [0, 1] (above.norm 2) tensor) := by
   refine ⟨?_, ?_, ?_⟩
   · intro hp
     unfold Obj.tangentRaw Obj.derivativeCall
     rw [hp]
     have : ∀ r, curveOutcome r (.lst [1]) = .generic [1] := by decide
-    simp [Obj.curveDerivativeWith, List.range, List.range.loop, this]
+    simp [Obj.curveDerivativeWith, List.range, List.range.loop, this, ASpec.norm_idem]
   · intro hp
     unfold Obj.tangentRaw Obj.derivativeCall
     rw [hp]
     have : ∀ r, surfaceOutcome r (.lst [1, 0]) = .generic [1, 0] := by decide
-    simp [Obj.surfaceDerivativeWith, List.range, List.range.loop, this]
+    simp [Obj.surfaceDerivativeWith, List.range, List.range.loop, this, ASpec.norm_idem]
   · intro hp
     unfold Obj.tangentRaw Obj.derivativeCall
     rw [hp]
     have : ∀ r, surfaceOutcome r (.lst [0, 1]) = .generic [0, 1] := by decide
-    simp [Obj.surfaceDerivativeWith, List.range, List.range.loop, this]
+    simp [Obj.surfaceDerivativeWith, List.range, List.range.loop, this, ASpec.norm_idem]
 
 /-- **Normalisation algebra** used by `tangent` / `normal` (stated with `s² = ‖v‖²`, no square roots):
 dividing a vector by `s` with `s² = ‖v‖²`, `s ≠ 0` gives a unit vector; the cross product of two rescaled
@@ -611,10 +685,9 @@ example : let τ : ℕ → ℚ := fun i => if i < 3 then 0 else 1
     τ (1 + 1) = τ 0 ∧ τ (2 + 1 + 1 + 1) = τ (2 + 1) := by
   simp
 
-/-- Sound dispatch functions exist: the pinned curve dispatch on all its spellings, the pinned surface
-dispatch on tuples. -/
+/-- Sound dispatch functions exist: the curve and the surface dispatch on all their spellings. -/
 example : soundOn curveOutcome 1 (ints 5 ++ tuples 1 5 ++ lists 1 5) = true := by decide
-example : soundOn surfaceOutcome 2 (tuples 2 4) = true := by decide
+example : soundOn surfaceOutcome 2 (ints 4 ++ tuples 2 4 ++ lists 2 4) = true := by decide
 
 /-- `C03_GoodPoints` is satisfiable (the open example basis of C01, `t = 1/2`, from the right). -/
 example : C03_GoodPoints (K := ℚ) C01_exOpen (1/1000) [1/2] true := by
